@@ -5,6 +5,7 @@
 package mux
 
 import (
+	"fmt"
 	"testing"
 
 	"verif/internal/vr"
@@ -64,8 +65,78 @@ func c23Configs() []*Config {
 	return cfgs
 }
 
+// c23Scenarios: large windows and large single writes (the 16-bit length of a
+// data message caps a block at 65535 bytes, so a Write beyond that is split
+// across messages and, beyond the window, across window updates). Fixed
+// histories, no exploration: receive window W in {65535, 65536, 1<<18}; A
+// performs ONE Write of N in {65535, 65536, 100000, 200000} patterned bytes
+// (value = function of the full offset, so holes, repeats and reordering show),
+// then an 18-byte trailer, then CloseWrite; B reads with a 70000-byte buffer
+// until end-of-stream; after every API event everything in flight is delivered.
+// Judged by the same lock-step byte-stream model as the exploration.
+func c23Scenarios() []scenario {
+	var out []scenario
+	for _, win := range []int{65535, 65536, 1 << 18} {
+		for _, n := range []int{65535, 65536, 100000, 200000} {
+			cfg := Config{Name: fmt.Sprintf("large-window-%d-single-write-%d", win, n), W: win, WriteBuffers: 2, Backlog: 2,
+				Opens: [2]int{1, 0}, Accepts: [2]int{0, 1}, MaxBytes: 1 << 30, LongPattern: true,
+				Writers: [2]bool{true, false}, Readers: [2]bool{false, true}, Closers: [2]bool{true, false}, Kinds: []string{"closeWrite"}}
+			size := n
+			drive := func(w *world, step func(Event) bool) {
+				for _, ev := range established {
+					if !step(ev) {
+						return
+					}
+				}
+				a, b := &w.streams[1].side[0], &w.streams[1].side[1]
+				// pump delivers everything in flight, keeps one Read outstanding
+				// at B, and repeats until done() or nothing moves any more.
+				pump := func(done func() bool) bool {
+					for i := 0; i < 400; i++ {
+						moved := false
+						for s := 0; s < 2; s++ {
+							for j := 0; j < 64 && !w.wires[s].idle(); j++ {
+								if !step(Event{K: "deliver", S: s}) {
+									return false
+								}
+								moved = true
+							}
+						}
+						if len(b.readCalls) == 0 && !b.eof {
+							if !step(Event{K: "read", S: 1, ID: 1, N: 70000}) {
+								return false
+							}
+							moved = true
+						}
+						if done() && w.idle() {
+							return true
+						}
+						if !moved {
+							return true
+						}
+					}
+					return true
+				}
+				writeDone := func() bool { return len(a.writeCalls) == 0 }
+				if !step(Event{K: "write", S: 0, ID: 1, N: size}) || !pump(writeDone) {
+					return
+				}
+				if !step(Event{K: "write", S: 0, ID: 1, N: 18}) || !pump(writeDone) {
+					return
+				}
+				if !step(Event{K: "closeWrite", S: 0, ID: 1}) {
+					return
+				}
+				pump(func() bool { return b.eof })
+			}
+			out = append(out, scenario{cfg.Name, cfg, drive})
+		}
+	}
+	return out
+}
+
 func TestC23(t *testing.T) {
-	runProperty(t, "C23", c23Configs(), nil, nil,
+	runProperty(t, "C23", c23Configs(), nil, c23Scenarios(),
 		"breadth-first exploration with state deduplication of ALL harness event sequences up to the configured depth over two real multiplexers on a harness-owned carrier inside a synctest bubble; events: open, accept, write(n) n in {0,1,W+1}, read(k) k in {0,1,W+1}, closeWrite, close (both sides), deliver next chunk A>B / B>A (thorough also: next byte, window 3, two streams); one case = one executed history; judged on every Read/Write result and at every quiescent state: byte k read on a stream = byte k the peer wrote on it (values encode stream, direction, offset), nothing read beyond what Write calls reported, io.EOF only after the peer's CloseWrite/Close and with all reported bytes read, reported bytes with nothing in flight are readable, and with nothing in flight no Write stays blocked whose data fits the window the peer has freed by reading (delivery on the still-open direction of a half-closed stream included: configuration with one write buffer and a carrier holding one chunk per direction, so that window increments and close-write wait in the accumulator); non-trivial = at least one byte was read end to end; distinct by final state key (which includes the order of reads / half-closes made while the side had no write buffer)",
 		[]string{commonAssume1, commonAssume2, commonAssume3,
 			"branches in which a multiplexer records an internal error are not continued here (that is C24's subject); they are counted in branches_stopped_at_internal_error"})
@@ -88,9 +159,15 @@ func c24Configs() []*Config {
 	rej.Name, rej.Opens, rej.Accepts, rej.Depth = "W2-backlog1-rejected-and-cancelled-opens", [2]int{2, 0}, [2]int{0, 2}, 9
 	rej.Kinds, rej.WriteSizes, rej.ReadSizes, rej.Closers = []string{"cancel", "close"}, []int{1}, []int{1}, [2]bool{true, false}
 	rej.AfterClose = false
-	cfgs := []*Config{&data, &dl, &rej}
+	// A Write blocked on an exhausted window is handed a deadline in the past,
+	// the deadline is cleared and the stream is written to again.
+	bw := base
+	bw.Name, bw.Preamble, bw.Depth = "W2-blocked-write-vs-past-deadline", established, 8
+	bw.Writers, bw.Readers, bw.Deadliners, bw.Closers = [2]bool{true, false}, [2]bool{}, [2]bool{true, false}, [2]bool{} // the peer never reads: the window stays exhausted
+	bw.Kinds, bw.DeadlineKinds, bw.WriteSizes, bw.ReadSizes, bw.MaxBytes, bw.AfterClose = []string{"wdl"}, []int{0, 1}, []int{1, 3}, []int{3}, 6, false
+	cfgs := []*Config{&bw, &data, &dl, &rej}
 	if vr.Thorough() {
-		data.Depth, dl.Depth, rej.Depth = 12, 11, 13
+		data.Depth, dl.Depth, rej.Depth, bw.Depth = 12, 11, 13, 12
 		w3 := base
 		w3.Name, w3.W, w3.WriteSizes, w3.ReadSizes, w3.MaxBytes, w3.Preamble, w3.Depth = "W3-data-and-closes-established", 3, []int{0, 1, 4}, []int{0, 1, 4}, 4, established, 8
 		cross := base
@@ -138,10 +215,10 @@ func c24Scenarios() []scenario {
 		}
 		for r := 0; r < rounds; r++ {
 			for _, id := range []int{1, 3} {
-				if w.streams[id].side[0].writeCall == nil && !step(Event{K: "write", S: 0, ID: id, N: 1}) {
+				if len(w.streams[id].side[0].writeCalls) == 0 && !step(Event{K: "write", S: 0, ID: id, N: 1}) {
 					return
 				}
-				if w.streams[id].side[1].readCall == nil && !step(Event{K: "read", S: 1, ID: id, N: 4}) {
+				if len(w.streams[id].side[1].readCalls) == 0 && !step(Event{K: "read", S: 1, ID: id, N: 4}) {
 					return
 				}
 			}
@@ -188,6 +265,9 @@ func c25Configs() []*Config {
 	unb.Writers, unb.Readers = [2]bool{true, false}, both
 	unb.Kinds, unb.DeadlineKinds = []string{"closeWrite", "close", "rdl", "wdl", "sleep", "closeMux"}, []int{1, 2}
 	unb.Deadliners = [2]bool{true, false}
+	// Up to two Reads and two Writes outstanding per stream side: the second
+	// queues on the stream's read / write slot behind the first.
+	unb.MaxConcurrent, unb.MaxBytes = 2, 6
 	// Opens and accepts: backlog overflow, cancellation, multiplexer close.
 	oa := base
 	oa.Name, oa.Opens, oa.Accepts, oa.Depth = "W2-backlog1-opens-accepts-cancel-muxclose", [2]int{3, 0}, [2]int{0, 2}, 11
